@@ -32,7 +32,7 @@ func (m *impl) Exec(line string) string {
 		return "bad-op"
 	}
 	switch ws[1] {
-	case "opt", "type", "const", "block", "skip", "other", "parsable", "col":
+	case "opt", "type", "const", "block", "skip", "other", "parsable", "col", "pre":
 		if m.def == nil {
 			m.def = &Def{Opts: "-"}
 		}
@@ -46,6 +46,7 @@ func (m *impl) Exec(line string) string {
 		}
 		cp := *m.def
 		cp.Parsable = append([]string{}, m.def.Parsable...)
+		cp.Pre = append([]string{}, m.def.Pre...)
 		cp.Types = append([]TypeD{}, m.def.Types...)
 		cp.Items = append([]Item{}, m.def.Items...)
 		m.cur = m.w.get(&cp)
@@ -108,9 +109,13 @@ func (m *impl) Exec(line string) string {
 			}
 		}
 		known := false
+		inner := ""
 		for _, c := range td.Cols {
 			if c.Name == ws[4] {
 				known = true
+				if strings.HasPrefix(c.Fam, "self:") {
+					inner = strings.TrimPrefix(c.Fam, "self:")
+				}
 			}
 		}
 		if !known {
@@ -124,12 +129,24 @@ func (m *impl) Exec(line string) string {
 			return "bad-op"
 		}
 		doc := ""
-		switch k {
-		case "s":
+		switch {
+		case inner != "" && k == "i":
+			// a self-unmarshalling trait type (another enum): the document holds the NAME of the
+			// inner enum's value (JSON string / YAML scalar)
+			v, ok := new(big.Int).SetString(p, 10)
+			if !ok {
+				return "bad-op"
+			}
+			pr, ok := primaryOf(m.cur.def, inner)[v.String()]
+			if !ok {
+				return "bad-op"
+			}
+			doc = "s:" + hexOf2(pr.Name)
+		case k == "s":
 			doc = "s:" + p
-		case "i":
+		case k == "i":
 			doc = "n:" + p
-		case "b":
+		case k == "b":
 			doc = "o:" + hexOf(map[string]string{"t": "true", "f": "false"}[p])
 		default:
 			return "bad-op"
